@@ -25,7 +25,7 @@ type Side struct {
 
 // Case is one generated scenario.
 type Case struct {
-	Cause    string `json:"cause"`   // close | idle | hstimeout | reset | forge | alert | trclose | cancel
+	Cause    string `json:"cause"`   // close | idle | hstimeout | reset | forge | alert | trclose | cancel | craft
 	By       string `json:"by"`      // "c" | "s": the endpoint that closes / whose transport is closed / that receives the forged packet
 	Phase    string `json:"phase"`   // handshake | edge | armed | transfer
 	Variant  int    `json:"variant"` // cause specific (see runCase)
@@ -44,9 +44,54 @@ type Case struct {
 	// list mirrors its Config but leaves out max_idle_timeout ("noidle") or carries the value 0 ("idle0"): a legal
 	// peer that has its idle timeout disabled (RFC 9000 10.1 / 18.2). The server then applies its own period alone.
 	ClientSpec string `json:"client_spec,omitempty"`
-	TruncDir   string `json:"trunc_dir,omitempty"` // truncate one short-header datagram of this direction ...
-	TruncNth   int    `json:"trunc_nth,omitempty"` // ... the n-th ...
-	TruncLen   int    `json:"trunc_len,omitempty"` // ... to this many bytes (DESIGN section 7 suspect 9)
+	// cause "craft": stateless resets crafted by the harness (a peer that lost its state, or an attacker who knows /
+	// guesses tokens) and injected towards endpoint By. Pre are datagrams that must be IGNORED (wrong / unused / retired
+	// token, or shorter than 21 bytes); each is followed by a pause. Then the case ends either with Final - a VALID
+	// reset (>= 21 bytes, token of the connection ID the victim currently sends to) - or, FinalClose, with a local
+	// CloseWithError of the victim (the ignored datagrams must have changed nothing).
+	ClientKind string  `json:"client_kind,omitempty"` // craft only: "" (Transport, ConnectionIDLength c.cid_len) | dial (quic.Dial: zero-length) | zerogen (Transport with a zero-length ConnectionIDGenerator) | chrome (UTransport, Chrome 115 spec, SrcConnIDLength 0) | firefox (UTransport, Firefox 116 spec, 3 bytes)
+	Pre        []Craft `json:"pre,omitempty"`
+	Final      Craft   `json:"final"`
+	FinalClose bool    `json:"final_close,omitempty"`
+	TruncDir   string  `json:"trunc_dir,omitempty"` // truncate one short-header datagram of this direction ...
+	TruncNth   int     `json:"trunc_nth,omitempty"` // ... the n-th ...
+	TruncLen   int     `json:"trunc_len,omitempty"` // ... to this many bytes (DESIGN section 7 suspect 9)
+}
+
+// Craft describes one crafted reset-shaped datagram: first byte 0b01xxxxxx, unpredictable filler, 16-byte token.
+type Craft struct {
+	Len   int    `json:"len"`             // total datagram length
+	Tok   string `json:"tok"`             // valid | random | flip | unused | retired (the last two fall back to flip when the wire showed no such connection ID); valid with len < 17: only the tail of the token fits ("partial")
+	Bit   int    `json:"bit,omitempty"`   // flip: which of the 128 token bits is inverted
+	Known bool   `json:"known,omitempty"` // bytes 1..n carry a connection ID of the victim (the datagram is routed to the connection), else unpredictable bytes
+	Seed  uint64 `json:"seed"`            // filler
+	GapMs int    `json:"gap_ms,omitempty"`
+}
+
+// resetLens: RFC 9000 10.3 minimum (21 = protocol.MinReceivedStatelessResetSize) and its neighbours, sizes below what
+// this implementation sends (42 = protocol.MinStatelessResetSize), that size and its neighbours, and large ones.
+var resetLens = []int{21, 21, 22, 30, 38, 41, 41, 42, 43, 100, 1200}
+
+func genCraft(t *rapid.T, label string, final bool) Craft {
+	cr := Craft{}
+	cr.Seed = rapid.Uint64().Draw(t, label+"seed")
+	cr.Known = rapid.IntRange(0, 3).Draw(t, label+"known") == 0
+	if final {
+		cr.Tok = "valid"
+		cr.Len = rapid.SampledFrom(resetLens).Draw(t, label+"len")
+		return cr
+	}
+	cr.GapMs = rapid.SampledFrom([]int{1, 1, 3, 20}).Draw(t, label+"gap")
+	cr.Tok = rapid.SampledFrom([]string{"valid", "valid", "random", "flip", "flip", "unused", "retired"}).Draw(t, label+"tok")
+	if cr.Tok == "valid" {
+		// below the RFC 9000 10.3 minimum of 21 bytes. 17..20 bytes still hold a whole token (outcome observed, not
+		// judged); 6..16 bytes hold only its tail and can never be a reset
+		cr.Len = rapid.OneOf(rapid.IntRange(17, 20), rapid.IntRange(17, 20), rapid.IntRange(6, 16)).Draw(t, label+"shortlen")
+		return cr
+	}
+	cr.Len = rapid.SampledFrom(append([]int{17, 20}, resetLens...)).Draw(t, label+"len")
+	cr.Bit = rapid.OneOf(rapid.IntRange(0, 127), rapid.SampledFrom([]int{0, 7, 8, 63, 64, 119, 120, 127})).Draw(t, label+"bit") // (first / last byte: a comparison that stops short)
+	return cr
 }
 
 var allCalls = []string{"read", "write", "accept", "acceptuni", "open", "openuni", "dgram", "senddgram"}
@@ -83,7 +128,7 @@ func genSide(t *rapid.T, label string, server bool) Side {
 
 func genCase(t *rapid.T) Case {
 	c := Case{}
-	c.Cause = rapid.SampledFrom([]string{"close", "close", "close", "close", "idle", "idle", "hstimeout", "reset", "forge", "forge", "alert", "trclose", "trclose", "cancel"}).Draw(t, "cause")
+	c.Cause = rapid.SampledFrom([]string{"close", "close", "close", "close", "idle", "idle", "hstimeout", "reset", "forge", "forge", "alert", "trclose", "trclose", "cancel", "craft", "craft"}).Draw(t, "cause")
 	c.By = rapid.SampledFrom([]string{"c", "s"}).Draw(t, "by")
 	c.RTTms = rapid.SampledFrom([]int{2, 10, 10, 40, 100}).Draw(t, "rtt")
 	c.HSIdleMs = rapid.SampledFrom([]int{500, 1000, 2000, 5000}).Draw(t, "hsidle")
@@ -106,10 +151,21 @@ func genCase(t *rapid.T) Case {
 		if c.Phase == "edge" {
 			c.Phase = "armed"
 		}
-	case "idle", "forge":
+	case "idle", "forge", "craft":
 		if c.Phase == "edge" {
 			c.Phase = "armed"
 		}
+	}
+	if c.Cause == "craft" {
+		c.ClientKind = rapid.SampledFrom([]string{"", "", "dial", "zerogen", "chrome", "firefox"}).Draw(t, "clientkind")
+		if c.ClientKind != "" && c.By == "s" && rapid.Bool().Draw(t, "tozero") {
+			c.By = "c" // (a server whose peer has zero-length connection IDs was given no token at all: mostly aim at the client)
+		}
+		for i, n := 0, rapid.SampledFrom([]int{0, 0, 1, 1, 2, 3}).Draw(t, "npre"); i < n; i++ {
+			c.Pre = append(c.Pre, genCraft(t, fmt.Sprintf("pre%d.", i), false))
+		}
+		c.Final = genCraft(t, "final.", true)
+		c.FinalClose = rapid.IntRange(0, 5).Draw(t, "finalclose") == 0
 	}
 	if c.Phase == "handshake" {
 		c.C.Blocked, c.S.Blocked = nil, nil
@@ -224,6 +280,18 @@ func (c *Case) aliveGuaranteed() bool {
 
 // normalize makes the generated case self-consistent (also applied to replayed cases, where it is a no-op).
 func normalize(c *Case) {
+	if c.Cause != "craft" {
+		c.ClientKind, c.Pre, c.Final, c.FinalClose = "", nil, Craft{}, false
+	}
+	switch c.ClientKind {
+	case "dial", "zerogen", "chrome":
+		c.C.CIDLen = 0
+	case "firefox":
+		c.C.CIDLen = 3
+	}
+	if c.ClientKind == "chrome" || c.ClientKind == "firefox" {
+		c.TruncLen = 0 // see ClientSpec below
+	}
 	if c.Phase == "handshake" || c.Phase == "edge" || !(c.Cause == "idle" || c.Cause == "close" || c.Cause == "trclose") {
 		c.ClientSpec = ""
 	}
@@ -260,7 +328,11 @@ func normalize(c *Case) {
 			s.Blocked = keep
 		}
 	}
-	quietLimit := func() int { return c.RTTms + neg/2 - c.armMs() - 2 }
+	preMs := 0
+	for _, cr := range c.Pre {
+		preMs += cr.GapMs
+	}
+	quietLimit := func() int { return c.RTTms + neg/2 - c.armMs() - 2 - preMs }
 	if c.Cause == "idle" && c.Variant%2 == 1 {
 		// natural idle timeout: nothing is sent any more, no keep-alives
 		c.C.KeepAlive, c.S.KeepAlive = "off", "off"
